@@ -989,20 +989,21 @@ theorem Extra.setCurrentNone {W : List Nat} {filed : Bool} {v : View} (h : Extra
     cur := fun _ i hi => by cases hi }
 
 /-- taking the next operation: what `dequeue` hands out can become the current operation -/
-theorem dequeue_extra (e : Engine) (all : Bool) (hinv : Inv e) (h : Extra false [] e.view) (hc : e.current = none) :
-    Extra false [] (e.dequeue all).1.view ∧ (e.dequeue all).1.current = none ∧ (e.dequeue all).1.ops = e.ops ∧
-    ∀ id, (e.dequeue all).2 = some id → (∃ o, e.ops.lookup id = some o) →
-      Extra false [] ({ (e.dequeue all).1 with current := some id } : Engine).view := by
-  have hb := hinv.2.1
-  rcases dequeue_cases e all with ⟨hn, he⟩ | ⟨id, r, hq, hd⟩ | ⟨id, r, _, _, hq, _, hd⟩ | ⟨id, r, _, _, _, hq, _, hd⟩
+theorem dequeue_extra (e : Engine) (all : Bool) (hb : Big [] [] e.view) (h : Extra false [] e.view) (hc : e.current = none) :
+    Extra false [] (e.dequeue all).1.view ∧ (e.dequeue all).1.current = none ∧ (e.dequeue all).1.core = e.core ∧
+    (e.dequeue all).1.state = e.state ∧
+    ∀ id, (e.dequeue all).2 = some id → (id ∈ e.highQ ∨ all = true) ∧ ((∃ o, e.ops.lookup id = some o) →
+      Extra false [] ({ (e.dequeue all).1 with current := some id } : Engine).view) := by
+  rcases dequeue_cases e all with ⟨hn, he⟩ | ⟨id, r, hq, hd⟩ | ⟨id, r, hall, _, hq, _, hd⟩ | ⟨id, r, hall, _, _, hq, _, hd⟩
   · rw [he]
-    exact ⟨h, hc, rfl, fun id hid => by rw [hn] at hid; cases hid⟩
+    exact ⟨h, hc, rfl, rfl, fun id hid => by rw [hn] at hid; cases hid⟩
   · rw [hd]
     have hp : Extra false [] ({ e with highQ := r } : Engine).view := h.popHigh id r hq
-    refine ⟨hp, hc, rfl, ?_⟩
-    intro i hi hex
-    cases hi
     have hmem : id ∈ e.highQ := by rw [hq]; exact List.mem_cons_self ..
+    refine ⟨hp, hc, rfl, rfl, ?_⟩
+    intro i hi
+    cases hi
+    refine ⟨.inl hmem, fun hex => ?_⟩
     have hnq : id ∉ e.userQ ++ e.resubQ := fun hm => h.x5.2 id hm hmem
     refine hp.setCurrentSome hc id ⟨fun a => hnq (List.mem_append_left _ a), fun a => hnq (List.mem_append_right _ a), (h.x3 id hmem).1, (h.x3 id hmem).2⟩ ?_ hex
     intro hor o ho
@@ -1021,9 +1022,10 @@ theorem dequeue_extra (e : Engine) (all : Bool) (hinv : Inv e) (h : Extra false 
       · exact c o ho
   · rw [hd]
     have hp : Extra false [] ({ e with resubQ := r } : Engine).view := h.popResub id r hq
-    refine ⟨hp, hc, rfl, ?_⟩
-    intro i hi hex
+    refine ⟨hp, hc, rfl, rfl, ?_⟩
+    intro i hi
     cases hi
+    refine ⟨.inr hall, fun hex => ?_⟩
     have hmem : id ∈ e.userQ ++ e.resubQ := by rw [hq]; exact List.mem_append_right _ (List.mem_cons_self ..)
     have hnd := h.x5.1
     rw [show e.view.resubQ = id :: r from hq] at hnd
@@ -1036,9 +1038,10 @@ theorem dequeue_extra (e : Engine) (all : Bool) (hinv : Inv e) (h : Extra false 
     · exact absurd a (h.x5.2 id hmem)
   · rw [hd]
     have hp : Extra false [] ({ e with userQ := r } : Engine).view := h.popUser id r hq
-    refine ⟨hp, hc, rfl, ?_⟩
-    intro i hi hex
+    refine ⟨hp, hc, rfl, rfl, ?_⟩
+    intro i hi
     cases hi
+    refine ⟨.inr hall, fun hex => ?_⟩
     have hmem : id ∈ e.userQ ++ e.resubQ := by rw [hq]; exact List.mem_append_left _ (List.mem_cons_self ..)
     have hnd := h.x5.1
     rw [show e.view.userQ = id :: r from hq] at hnd
@@ -1048,5 +1051,404 @@ theorem dequeue_extra (e : Engine) (all : Bool) (hinv : Inv e) (h : Extra false 
     rcases hor with a | a
     · exact absurd a (h.x2 id hmem).2.1
     · exact absurd a (h.x5.2 id hmem)
+
+def Seat.engine : Seat → Engine
+  | .ret e _ => e
+  | .cont e => e
+  | .encode e => e
+
+/-- the second layer is about the view only: engines with the same view agree on it -/
+theorem Extra.congr {filed : Bool} {W : List Nat} {e e' : Engine} (h : Extra filed W e.view) (hv : e'.view = e.view) : Extra filed W e'.view := by
+  rw [hv]; exact h
+
+theorem connect_publishQos (p : Packet) (h : isConnectPacket p = true) : publishQos p = none := by
+  cases p <;> simp [isConnectPacket] at h <;> rfl
+
+/-- last-chance validation failed: the operation being seated is failed and nothing is being written any more -/
+theorem rejectCurrent_extra (e4 : Engine) (id : Nat) (resolution : Resolution) (x : VErr) (h : Extra false [] e4.view)
+    (hc : e4.current = some id)
+    (hcon : e4.state = .pendingConnack → ∀ o, e4.ops.lookup id = some o → isConnectPacket o.packet = true) : Extra false [] (e4.rejectCurrent id resolution x).engine.view := by
+  unfold Engine.rejectCurrent
+  simp only []
+  generalize he : (if resolution.alias.isSome = true then ({ e4 with outRes := e4.outRes.reset ((e4.settings.map (·.topicAliasMaximum)).getD 0) } : Engine) else e4) = e4r
+  have hv : e4r.view = e4.view := by subst he; split <;> rfl
+  have hst : e4r.state = e4.state := congrArg View.state hv
+  have h0 : Extra false [] ({ e4r with current := none } : Engine).view := by
+    show Extra false [] { e4r.view with current := none }
+    rw [hv]
+    exact h.setCurrentNone
+  -- the operation that was current is neither queued for the handshake nor written-but-unflushed
+  have hnh : e4.state = .pendingConnack → id ∉ e4.highQ ++ e4.pendingWC := by
+    intro hs hm
+    rcases List.mem_append.mp hm with a | a
+    · obtain ⟨o, ho⟩ := h.cur (.inr hs) id hc
+      have hp := h.x6 id hc a o ho
+      have hq := h.x8 id o ho hp
+      have hcon2 := hcon hs o ho
+      rw [connect_publishQos _ hcon2] at hq; cases hq
+    · exact h.x1a rfl id hc a
+  have h5 := completeFailure_extra ({ e4r with current := none } : Engine) id x.name h0 (fun _ hcc => by cases hcc)
+    (fun hs hm => by
+      have hm2 : id ∈ e4.highQ ++ e4.pendingWC := by
+        have e1 : e4r.highQ = e4.highQ := congrArg View.highQ hv
+        have e2 : e4r.pendingWC = e4.pendingWC := congrArg View.pendingWC hv
+        show id ∈ e4.highQ ++ e4.pendingWC
+        rw [← e1, ← e2]; exact hm
+      exact absurd hm2 (hnh (by rw [← hst]; exact hs)))
+  generalize ({ e4r with current := none } : Engine).completeFailure id x.name = r at h5
+  obtain ⟨e5, r5⟩ := r
+  simp only []
+  split <;> exact h5
+
+theorem prepareCurrent_extra (e3 : Engine) (id : Nat) (o : Op) (h : Extra false [] e3.view)
+    (hc : e3.current = some id)
+    (hcon : e3.state = .pendingConnack → ∀ o, e3.ops.lookup id = some o → isConnectPacket o.packet = true) : Extra false [] (e3.prepareCurrent id o).engine.view := by
+  unfold Engine.prepareCurrent
+  simp only []
+  generalize e3.resolveOutbound (o.pubrel.getD o.packet) = rr
+  obtain ⟨res', resolution⟩ := rr
+  simp only []
+  split
+  · exact h
+  · exact rejectCurrent_extra ({ e3 with outRes := res' } : Engine) id resolution _ h hc hcon
+  · split
+    · exact h
+    · exact h
+
+theorem seatCurrent_extra (e : Engine) (all : Bool) (hok : e.core.Ok) (hb : Big [] [] e.view) (h : Extra false [] e.view)
+    (hall : all = true → e.state = .connected) :
+    Extra false [] (e.seatCurrent all).engine.view := by
+  unfold Engine.seatCurrent
+  cases hc : e.current with
+  | some c => exact h
+  | none =>
+    simp only []
+    obtain ⟨hd, hcn, hcore, hst, hseat⟩ := dequeue_extra e all hb h hc
+    generalize e.dequeue all = dq at hd hcn hcore hst hseat
+    obtain ⟨e1, next⟩ := dq
+    cases next with
+    | none => exact hd
+    | some id =>
+      simp only []
+      have hops : e1.ops = e.ops := congrArg Core.ops hcore
+      split
+      · -- no such operation any more: the entry is skipped
+        have : ({ ({ e1 with current := some id } : Engine) with current := none } : Engine).view = e1.view := by
+          show { e1.view with current := none } = e1.view
+          have : e1.view.current = none := hcn
+          cases hv : e1.view; simp only [hv] at this; subst this; rfl
+        exact hd.congr this
+      · rename_i hex
+        obtain ⟨hfrom, hset⟩ := hseat id rfl
+        have hex2 : ∃ o, e.ops.lookup id = some o := by
+          cases ho : e1.ops.lookup id with
+          | none => exfalso; apply hex; simp [Engine.op?, ho]
+          | some o => exact ⟨o, by rw [← hops]; exact ho⟩
+        have h2 := hset hex2
+        have hok2 : ({ e1 with current := some id } : Engine).core.Ok := by
+          show e1.core.Ok; rw [hcore]; exact hok
+        have h3 := acquireIdFor_extra ({ e1 with current := some id } : Engine) id hok2 h2
+        obtain ⟨f1, _, _, f4, _, _, _⟩ := acquireIdFor_frame ({ e1 with current := some id } : Engine) id
+        have hcon3 : (({ e1 with current := some id } : Engine).acquireIdFor id).1.state = .pendingConnack →
+            ∀ o, (({ e1 with current := some id } : Engine).acquireIdFor id).1.ops.lookup id = some o → isConnectPacket o.packet = true := by
+          intro hs o' ho'
+          obtain ⟨x, hx, _, _, hcc, _⟩ := acquireIdFor_lookup _ hok2 id id o' ho'
+          rw [hcc]
+          have hpc : e.state = .pendingConnack := by rw [← hst]; rw [f1] at hs; exact hs
+          have hmem : id ∈ e.highQ := by
+            rcases hfrom with a | a
+            · exact a
+            · have := hall a; rw [hpc] at this; cases this
+          exact (hb.h1 hpc).1 id (List.mem_append_left _ hmem) x (by show e.ops.lookup id = some x; rw [← hops]; exact hx)
+        generalize ({ e1 with current := some id } : Engine).acquireIdFor id = ar at h3 f4 hcon3
+        obtain ⟨e3, r⟩ := ar
+        simp only []
+        split
+        · exact h3
+        · split
+          · exact h3
+          · exact prepareCurrent_extra e3 id _ h3 f4 hcon3
+
+/-! ### the service path: a completely written operation is filed -/
+
+theorem vals_mapInsert_elim {m : List (Nat × Nat)} {k v x : Nat} (h : x ∈ vals (mapInsert m k v)) : x = v ∨ x ∈ vals m := by
+  obtain ⟨y, hy, rfl⟩ := List.mem_map.mp h
+  rcases mem_mapInsert hy with a | a
+  · left; rw [a]
+  · right; exact List.mem_map.mpr ⟨y, a, rfl⟩
+
+/-- the written-but-unflushed list gains the operation being written -/
+theorem Extra.filePendingWC {v : View} (h : Extra false [] v) (id : Nat) (s' : PState) (hc : v.current = some id)
+    (hs : s' = v.state ∨ s' = .pendingDisconnect) (hnh : id ∉ v.highQ) (hex : ∃ o, v.ops.lookup id = some o) :
+    Extra true [] { v with state := s', pendingWC := v.pendingWC ++ [id] } := by
+  have hmem : ∀ i, i ∈ v.pendingWC ++ [id] → i ∈ v.pendingWC ∨ i = id := fun i hi => by
+    rcases List.mem_append.mp hi with a | a
+    · exact .inl a
+    · exact .inr (List.mem_singleton.mp a)
+  have hstate : (s' = .connected ∨ s' = .pendingConnack) → s' = v.state := by
+    intro hh
+    rcases hs with a | a
+    · exact a
+    · rw [a] at hh; rcases hh with b | b <;> cases b
+  exact { h with
+    x1a := fun hf => by cases hf
+    x1b := fun hf => by cases hf
+    x1c := fun hf => by cases hf
+    x2 := fun i hi => by
+      refine ⟨fun hm => ?_, (h.x2 i hi).2⟩
+      rcases hmem i hm with a | a
+      · exact (h.x2 i hi).1 a
+      · subst a
+        rcases List.mem_append.mp hi with b | b
+        · exact (h.x4 i hc).1 b
+        · exact (h.x4 i hc).2 b
+    x3 := fun i hi => by
+      refine ⟨fun hm => ?_, (h.x3 i hi).2⟩
+      rcases hmem i hm with a | a
+      · exact (h.x3 i hi).1 a
+      · subst a; exact hnh hi
+    cur := fun hh i hi => h.cur (by rw [← hstate hh]; exact hh) i hi
+    h1e := fun hh => by
+      have hv : v.state = .pendingConnack := by rw [← hstate (.inr hh)]; exact hh
+      obtain ⟨a, b⟩ := h.h1e hv
+      refine ⟨fun i hi => ?_, b⟩
+      rcases List.mem_append.mp hi with c | c
+      · exact a i (List.mem_append_left _ c)
+      · rcases hmem i c with d | d
+        · exact a i (List.mem_append_right _ d)
+        · subst d; exact .inr hex
+    op := fun hh i hi o ho => by
+      have hv : v.state = .disconnected ∨ v.state = .pendingConnack := by
+        rcases hs with a | a
+        · rw [← a]; exact hh
+        · rw [a] at hh; rcases hh with b | b <;> cases b
+      exact h.op hv i hi o ho }
+
+theorem Extra.filePendingPub {v : View} (h : Extra false [] v) (id pid : Nat) (hc : v.current = some id) :
+    Extra true [] { v with pendingPub := mapInsert v.pendingPub pid id } :=
+  { h with
+    x1a := fun hf => by cases hf
+    x1b := fun hf => by cases hf
+    x1c := fun hf => by cases hf
+    x2 := fun i hi => by
+      refine ⟨(h.x2 i hi).1, fun hm => ?_, (h.x2 i hi).2.2⟩
+      rcases vals_mapInsert_elim hm with a | a
+      · subst a
+        rcases List.mem_append.mp hi with b | b
+        · exact (h.x4 i hc).1 b
+        · exact (h.x4 i hc).2 b
+      · exact (h.x2 i hi).2.1 a }
+
+theorem Extra.filePendingNonPub {v : View} (h : Extra false [] v) (id pid : Nat) (hc : v.current = some id) (hnh : id ∉ v.highQ) :
+    Extra true [] { v with pendingNonPub := mapInsert v.pendingNonPub pid id } :=
+  { h with
+    x1a := fun hf => by cases hf
+    x1b := fun hf => by cases hf
+    x1c := fun hf => by cases hf
+    x2 := fun i hi => by
+      refine ⟨(h.x2 i hi).1, (h.x2 i hi).2.1, fun hm => ?_⟩
+      rcases vals_mapInsert_elim hm with a | a
+      · subst a
+        rcases List.mem_append.mp hi with b | b
+        · exact (h.x4 i hc).1 b
+        · exact (h.x4 i hc).2 b
+      · exact (h.x2 i hi).2.2 a
+    x3 := fun i hi => by
+      refine ⟨(h.x3 i hi).1, fun hm => ?_⟩
+      rcases vals_mapInsert_elim hm with a | a
+      · subst a; exact hnh hi
+      · exact (h.x3 i hi).2 a }
+
+theorem fileWritten_extra (e : Engine) (id : Nat) (o : Op) (h : Extra false [] e.view) (ho : e.ops.lookup id = some o)
+    (hc : e.current = some id) : Extra true [] (e.fileWritten id o).view := by
+  -- still queued on the high-priority queue: only a QoS 2 publish that sends its PUBREL can be
+  have hq2 : id ∈ e.highQ → publishQos o.packet = some 2 := fun hm => h.x8 id o ho (h.x6 id hc hm o ho)
+  unfold Engine.fileWritten
+  split
+  · rename_i sp hp
+    exact h.filePendingNonPub id sp.packetId hc (fun hm => by have := hq2 hm; rw [hp] at this; cases this)
+  · rename_i sp hp
+    exact h.filePendingNonPub id sp.packetId hc (fun hm => by have := hq2 hm; rw [hp] at this; cases this)
+  · rename_i pb hp
+    split
+    · rename_i hq0
+      have := h.filePendingWC id e.state hc (.inl rfl) (fun hm => by have := hq2 hm; rw [hp] at this; simp [publishQos, hq0] at this) ⟨o, ho⟩
+      exact this
+    · exact h.filePendingPub id pb.packetId hc
+  · rename_i dp hp
+    exact h.filePendingWC id .pendingDisconnect hc (.inr rfl) (fun hm => by have := hq2 hm; rw [hp] at this; cases this) ⟨o, ho⟩
+  · rename_i hn1 hn2 hn3 hn4
+    have := h.filePendingWC id e.state hc (.inl rfl) (fun hm => by
+      have := hq2 hm
+      cases hp : o.packet <;> rw [hp] at this <;> first | cases this | skip
+      exact absurd hp (hn3 _)) ⟨o, ho⟩
+    exact this
+
+theorem onFullyWritten_extra (e e3 : Engine) (hw : e.onFullyWritten = some e3) (hok : e.core.Ok) (h : Extra false [] e.view) :
+    Extra false [] e3.view := by
+  unfold Engine.onFullyWritten at hw
+  cases hc : e.current with
+  | none => rw [hc] at hw; cases hw
+  | some id =>
+    rw [hc] at hw
+    simp only [] at hw
+    cases ho : e.op? id with
+    | none => rw [ho] at hw; cases hw
+    | some o =>
+      rw [ho] at hw
+      simp only [Option.some.injEq] at hw
+      have hid := hok.id_eq (show e.core.ops.lookup id = some o from ho)
+      subst hid
+      have h1 := fileWritten_extra e o.id o h ho hc
+      have hops : (e.fileWritten o.id o).ops = e.ops := by unfold Engine.fileWritten; split <;> (try split) <;> rfl
+      have hcur : (e.fileWritten o.id o).current = e.current := by unfold Engine.fileWritten; split <;> (try split) <;> rfl
+      generalize e.fileWritten o.id o = e1 at hw h1 hops hcur
+      have ho1 : e1.view.ops.lookup o.id = some o := by show e1.ops.lookup o.id = _; rw [hops]; exact ho
+      have h2 : Extra true [] (e1.setOp { o with pingBase := some e.now }).view := by
+        rw [setOp_view]
+        exact h1.replaceOp o.id o _ ho1 (fun _ a => a) (fun _ => rfl) (fun hp => h1.x8 o.id o ho1 hp)
+      have h3 : Extra true [] ((e1.setOp { o with pingBase := some e.now }).startAckTimeout o.id).view := by
+        unfold Engine.startAckTimeout
+        split
+        · exact { h2 with x1a := h2.x1a }
+        · exact h2
+      subst hw
+      exact h3.setCurrentNone
+
+/-- the loop of `service_queue_aux` -/
+theorem serviceQueueAux_extra (all : Bool) (cap : Nat) : ∀ (fuel : Nat) (e : Engine), e.core.Ok → Big [] [] e.view → Extra false [] e.view →
+    (all = true → e.state ≠ .pendingConnack) →
+    Extra false [] (Engine.serviceQueueAux all cap fuel e).1.view := by
+  intro fuel
+  induction fuel with
+  | zero => intro e _ _ h _; exact h
+  | succ f ih =>
+    intro e hok hb h hall
+    unfold Engine.serviceQueueAux
+    split
+    · exact h
+    · rename_i hrun
+      have hst : e.state = .connected ∨ e.state = .pendingConnack := by
+        cases hs : e.state <;> simp [hs] at hrun
+        · exact .inr rfl
+        · exact .inl rfl
+      have hall' : all = true → e.state = .connected := by
+        intro ha
+        rcases hst with a | a
+        · exact a
+        · exact absurd a (hall ha)
+      have so := seatCurrent_out e all hok hb hall'
+      have sp := seatCurrent_pres e all
+      have sx := seatCurrent_extra e all hok hb h hall'
+      cases hseat : e.seatCurrent all with
+      | ret e1 r => rw [hseat] at sx; exact sx
+      | cont e1 =>
+        rw [hseat] at so sp sx
+        exact ih e1 (sp hok).1 so.1 sx (fun ha hpc => hall ha (so.2.pc hpc))
+      | encode e1 =>
+        rw [hseat] at so sp sx
+        simp only []
+        have hok1 : e1.core.Ok := (sp hok).1
+        have h1 : Big [] [] e1.view := so.1
+        have sv1 : SV e e1 := so.2.1
+        have hste1 : e1.state = e.state := so.2.2
+        have x1 : Extra false [] e1.view := sx
+        cases hc : e1.current with
+        | none => exact x1
+        | some id =>
+          simp only []
+          split
+          · exact x1
+          · split
+            · exact x1
+            · have h2 : Big [] [] (e1.encodeCurrent cap).1.view := h1
+              have hok2 : (e1.encodeCurrent cap).1.core.Ok := hok1
+              have sv2 : SV e (e1.encodeCurrent cap).1 := sv1.trans (SV.of_frame rfl rfl rfl)
+              have hst2 : (e1.encodeCurrent cap).1.state = e1.state := rfl
+              have x2 : Extra false [] (e1.encodeCurrent cap).1.view := x1
+              generalize e1.encodeCurrent cap = y at h2 hok2 sv2 hst2 x2 ⊢
+              obtain ⟨e2, failed⟩ := y
+              simp only [] at h2 hok2 sv2 hst2 x2 ⊢
+              split
+              · exact x2
+              · split
+                · cases hw : e2.onFullyWritten with
+                  | none => exact x2
+                  | some e3 =>
+                    simp only []
+                    have hrun2 : e2.state = .connected ∨ e2.state = .pendingConnack := by rw [hst2, hste1]; exact hst
+                    have ow := onFullyWritten_out e2 e3 hw hok2 h2 hrun2
+                    have hok3 : e3.core.Ok := (onFullyWritten_pres e2 e3 hw hok2).1
+                    have x3 := onFullyWritten_extra e2 e3 hw hok2 x2
+                    exact ih e3 hok3 ow.1 x3 (fun ha hpc => hall ha (sv2.pc (ow.2.pc hpc)))
+                · exact x2
+
+theorem serviceQueue_extra (e : Engine) (all : Bool) (cap prefill : Nat) (hok : e.core.Ok) (hb : Big [] [] e.view) (h : Extra false [] e.view)
+    (hall : all = true → e.state ≠ .pendingConnack) : Extra false [] (e.serviceQueue all cap prefill).1.view := by
+  unfold Engine.serviceQueue
+  simp only []
+  have r := serviceQueueAux_extra all cap (2 * (e.highQ.length + e.resubQ.length + e.userQ.length) + 4)
+    { e with outBytes := List.replicate (min prefill cap) 0 } hok hb h hall
+  generalize Engine.serviceQueueAux all cap (2 * (e.highQ.length + e.resubQ.length + e.userQ.length) + 4)
+    { e with outBytes := List.replicate (min prefill cap) 0 } = x at r ⊢
+  obtain ⟨e1, rr⟩ := x
+  exact r
+
+theorem serviceCore_extra (e : Engine) (cap prefill : Nat) (hinv : Inv e) (h : Extra false [] e.view) :
+    Extra false [] (e.serviceCore cap prefill).1.view := by
+  obtain ⟨hok, hb, _, _⟩ := hinv
+  unfold Engine.serviceCore
+  cases hst : e.state with
+  | disconnected => exact h
+  | halted => exact h
+  | pendingDisconnect =>
+    simp only []
+    exact processAckTimeouts_extra _ e h (by rw [hst]; decide)
+  | pendingConnack =>
+    simp only []
+    cases hcd : e.connackDeadline with
+    | none => exact h
+    | some d =>
+      simp only []
+      split
+      · exact h
+      · exact serviceQueue_extra e false cap prefill hok hb h (fun hh => by cases hh)
+  | connected =>
+    simp only []
+    have hka := serviceKeepAlive_hk e (by rw [hst]; decide)
+    have hoka := (hka.stp.pres hok).1
+    have ha := hka.stp.keeps hok hb
+    have sva := hka.sv
+    have xa := serviceKeepAlive_extra e ⟨hok, hb, ‹_›, ‹_›⟩ h
+    generalize e.serviceKeepAlive = ka at hka hoka ha sva xa ⊢
+    obtain ⟨ea, ra⟩ := ka
+    simp only [] at hoka ha sva xa ⊢
+    split
+    · exact xa
+    · have hsta : ea.state ≠ .pendingConnack := fun hh => by
+        have := sva.pc hh; rw [hst] at this; cases this
+      have rb := serviceQueue_out ea true cap prefill hoka ha (fun _ => hsta)
+      have xb := serviceQueue_extra ea true cap prefill hoka ha xa (fun _ => hsta)
+      generalize ea.serviceQueue true cap prefill = qb at rb xb ⊢
+      obtain ⟨eb, rbr⟩ := qb
+      simp only [] at rb xb ⊢
+      split
+      · exact xb
+      · refine processAckTimeouts_extra _ eb xb ?_
+        intro hh
+        have := sva.pc (rb.2.pc hh); rw [hst] at this; cases this
+
+/-- **`service` keeps the second layer** -/
+theorem service_extra (e : Engine) (cap prefill : Nat) (hinv : Inv e) (h : Extra false [] e.view) :
+    Extra false [] (e.service cap prefill).1.view := by
+  have hc := serviceCore_extra e cap prefill hinv h
+  unfold Engine.service
+  generalize e.serviceCore cap prefill = x at hc ⊢
+  obtain ⟨e1, r⟩ := x
+  simp only [] at hc ⊢
+  split
+  · exact hc
+  · exact hc
+  · exact hc.halt
 
 end GV
